@@ -1,3 +1,649 @@
 package runner
 
-func CmdCheck(args []string) int { return 2 }
+import (
+	"encoding/json"
+	"flag"
+	"fmt"
+	"os"
+	"path/filepath"
+	"runtime"
+	"sort"
+	"strconv"
+	"strings"
+	"sync"
+	"time"
+
+	"verif/engine/sym"
+)
+
+// JobSpec describes one exploration job of a property.
+type JobSpec struct {
+	Set       string
+	Fn        string
+	Params    map[string]string
+	Unwind    int
+	MaxPaths  int
+	Split     int
+	Timeout   time.Duration
+	Overrides map[string]string
+	prefix    []int
+}
+
+func (j JobSpec) label() string {
+	var ks []string
+	for k, v := range j.Params {
+		ks = append(ks, k+"="+v)
+	}
+	sort.Strings(ks)
+	return j.Fn + "{" + strings.Join(ks, ",") + "}"
+}
+
+// Prop is the check definition of one property.
+type Prop struct {
+	ID             string
+	Jobs           func(rc *RunCtx) []JobSpec
+	Assumptions    []string
+	RequiredCovers map[string][]string // harness fn -> labels that must be reached at least once
+	Bounds         func(tier string) map[string]interface{}
+	Outside        []string
+	// Extra runs checks that do not go through the SSA engine (returns extra coverage info)
+	Extra func(rc *RunCtx) error
+	// UnwindIsFinding: an UNWIND outcome is a termination counterexample candidate (replayed under a wall-clock limit)
+	UnwindIsFinding bool
+}
+
+var props = map[string]*Prop{}
+
+func register(p *Prop) { props[p.ID] = p }
+
+// KnownFinding is one line of /verif/known_findings.jsonl.
+type KnownFinding struct {
+	Property string            `json:"property"`
+	Status   string            `json:"status"` // "known" (default) | "fixed"
+	Kind     string            `json:"kind,omitempty"`
+	ID       string            `json:"id,omitempty"`
+	Site     string            `json:"site,omitempty"`
+	Harness  string            `json:"harness,omitempty"`
+	Tags     map[string]string `json:"tags,omitempty"`
+	What     string            `json:"what"`
+	Commit   string            `json:"commit,omitempty"`
+}
+
+func loadKnown(verif string) []KnownFinding {
+	b, err := os.ReadFile(filepath.Join(verif, "known_findings.jsonl"))
+	if err != nil {
+		return nil
+	}
+	var out []KnownFinding
+	for _, line := range strings.Split(string(b), "\n") {
+		line = strings.TrimSpace(line)
+		if line == "" || strings.HasPrefix(line, "#") {
+			continue
+		}
+		var k KnownFinding
+		if json.Unmarshal([]byte(line), &k) == nil {
+			out = append(out, k)
+		}
+	}
+	return out
+}
+
+func (k *KnownFinding) matches(prop string, f *sym.Finding) bool {
+	if k.Status == "fixed" {
+		return false
+	}
+	if k.Property != prop {
+		return false
+	}
+	if k.Kind != "" && k.Kind != f.Kind {
+		return false
+	}
+	if k.ID != "" && k.ID != f.ID {
+		return false
+	}
+	if k.Site != "" && !strings.Contains(f.Site, k.Site) {
+		return false
+	}
+	if k.Harness != "" && k.Harness != f.Harness {
+		return false
+	}
+	for tk, tv := range k.Tags {
+		if f.Tags[tk] != tv && f.Params[tk] != tv {
+			return false
+		}
+	}
+	return true
+}
+
+// RunCtx carries the state of one check run.
+type RunCtx struct {
+	Prop      *Prop
+	Tier      string
+	Seed      int64
+	Verif     string
+	Repo      string
+	St        *Staged
+	Ld        *sym.Loaded
+	Workers   int
+	Results   []*sym.JobResult
+	Extra     map[string]interface{}
+	Violation []string
+	Known     []string
+	Inconcl   []string
+	Validated int
+	Samples   []interface{}
+	jobs      []JobSpec
+	mu        sync.Mutex
+}
+
+func (rc *RunCtx) inconclusive(format string, a ...interface{}) {
+	rc.mu.Lock()
+	defer rc.mu.Unlock()
+	s := fmt.Sprintf(format, a...)
+	for _, x := range rc.Inconcl {
+		if x == s {
+			return
+		}
+	}
+	rc.Inconcl = append(rc.Inconcl, s)
+}
+
+func CmdCheck(args []string) int {
+	fs := flag.NewFlagSet("check", flag.ExitOnError)
+	propID := fs.String("prop", "", "property id")
+	tier := fs.String("tier", "", "quick|thorough")
+	repo := fs.String("repo", "/repo", "")
+	verif := fs.String("verif", "/verif", "")
+	workers := fs.Int("workers", 0, "")
+	solver := fs.String("solver", "z3-new", "")
+	only := fs.String("only", "", "run only jobs whose label contains this")
+	fs.Parse(args)
+	if *tier == "" {
+		*tier = os.Getenv("VERIF_TIER")
+	}
+	if *tier == "" {
+		*tier = "quick"
+	}
+	seed, _ := strconv.ParseInt(os.Getenv("VERIF_SEED"), 10, 64)
+	p := props[*propID]
+	if p == nil {
+		fmt.Fprintf(os.Stderr, "unknown property %q\n", *propID)
+		return 2
+	}
+	if *workers == 0 {
+		*workers = runtime.NumCPU()
+		if *workers > 16 {
+			*workers = 16
+		}
+	}
+	t0 := time.Now()
+	rc := &RunCtx{Prop: p, Tier: *tier, Seed: seed, Verif: *verif, Repo: *repo, Workers: *workers, Extra: map[string]interface{}{}}
+	st, err := Stage(*verif, *repo)
+	if err != nil {
+		fmt.Fprintln(os.Stderr, "stage:", err)
+		return 2
+	}
+	defer st.Cleanup()
+	rc.St = st
+	ld, err := st.Load()
+	if err != nil {
+		fmt.Fprintln(os.Stderr, "load:", err)
+		writeEvidence(rc, t0, []string{"load failed: " + err.Error()})
+		fmt.Printf("INCONCLUSIVE property=%s: /repo does not load: %v\n", p.ID, firstLine(err.Error()))
+		return 2
+	}
+	rc.Ld = ld
+	var jobs []JobSpec
+	if p.Jobs != nil {
+		jobs = p.Jobs(rc)
+	}
+	rc.jobs = jobs
+	if *only != "" {
+		var f []JobSpec
+		for _, j := range jobs {
+			if strings.Contains(j.label(), *only) {
+				f = append(f, j)
+			}
+		}
+		jobs = f
+	}
+	if len(jobs) > 0 {
+		rc.runJobs(jobs, *solver)
+	}
+	if p.Extra != nil {
+		if err := p.Extra(rc); err != nil {
+			rc.inconclusive("extra check failed: %v", err)
+		}
+	}
+	rc.processFindings()
+	rc.validateTraces()
+	rc.checkCovers()
+	writeEvidence(rc, t0, nil)
+	for _, k := range rc.Known {
+		fmt.Println(k)
+	}
+	for _, v := range rc.Violation {
+		fmt.Println(v)
+	}
+	for _, s := range rc.Inconcl {
+		fmt.Printf("INCONCLUSIVE property=%s: %s\n", p.ID, s)
+	}
+	nPaths, nQ := 0, 0
+	for _, r := range rc.Results {
+		nPaths += r.Paths
+		nQ += r.Solver.Queries
+	}
+	fmt.Printf("property=%s tier=%s jobs=%d paths=%d solver_queries=%d validated_traces=%d violations=%d known=%d inconclusive=%d wall=%.1fs\n",
+		p.ID, *tier, len(rc.Results), nPaths, nQ, rc.Validated, len(rc.Violation), len(rc.Known), len(rc.Inconcl), time.Since(t0).Seconds())
+	if len(rc.Violation) > 0 {
+		return 1
+	}
+	if len(rc.Inconcl) > 0 {
+		return 2
+	}
+	return 0
+}
+
+func firstLine(s string) string {
+	if i := strings.IndexByte(s, '\n'); i >= 0 {
+		return s[:i]
+	}
+	return s
+}
+
+func (rc *RunCtx) runOne(j JobSpec, solver string, tier string) *sym.JobResult {
+	cfg := sym.JobConfig{Harness: j.Fn, Pkg: PkgPath(j.Set), Params: j.Params, Unwind: j.Unwind, MaxPaths: j.MaxPaths,
+		Timeout: j.Timeout, Overrides: j.Overrides, Prefix: j.prefix, TraceEvery: 97, MaxTraces: 6}
+	if tier == "thorough" {
+		cfg.TraceEvery, cfg.MaxTraces = 41, 24
+	}
+	if cfg.Timeout == 0 {
+		cfg.Timeout = 10 * time.Minute
+		if tier == "thorough" {
+			cfg.Timeout = 40 * time.Minute
+		}
+	}
+	m, err := sym.NewMachine(rc.Ld, cfg, solver)
+	if err != nil {
+		rc.inconclusive("solver start failed: %v", err)
+		return nil
+	}
+	defer m.Close()
+	return m.Run()
+}
+
+func (rc *RunCtx) runJobs(jobs []JobSpec, solver string) {
+	type item struct {
+		j        JobSpec
+		frontier bool
+	}
+	var mu sync.Mutex
+	var queue []item
+	for _, j := range jobs {
+		queue = append(queue, item{j, j.Split > 0})
+	}
+	// largest first is unknown; keep order
+	var wg sync.WaitGroup
+	pending := len(queue)
+	cond := sync.NewCond(&mu)
+	worker := func() {
+		defer wg.Done()
+		for {
+			mu.Lock()
+			for len(queue) == 0 && pending > 0 {
+				cond.Wait()
+			}
+			if pending == 0 && len(queue) == 0 {
+				mu.Unlock()
+				cond.Broadcast()
+				return
+			}
+			it := queue[0]
+			queue = queue[1:]
+			mu.Unlock()
+			var res *sym.JobResult
+			func() {
+				defer func() {
+					if r := recover(); r != nil {
+						rc.inconclusive("engine crash in job %s: %v", it.j.label(), r)
+					}
+				}()
+				if it.frontier {
+					cfg := sym.JobConfig{Harness: it.j.Fn, Pkg: PkgPath(it.j.Set), Params: it.j.Params, Unwind: it.j.Unwind,
+						Overrides: it.j.Overrides, SplitDepth: it.j.Split, Timeout: 10 * time.Minute}
+					m, err := sym.NewMachine(rc.Ld, cfg, solver)
+					if err != nil {
+						rc.inconclusive("solver start failed: %v", err)
+						return
+					}
+					res = m.Run()
+					m.Close()
+				} else {
+					res = rc.runOne(it.j, solver, rc.Tier)
+				}
+			}()
+			if res != nil && (res.Wall > 20*time.Second || os.Getenv("SYMGO_VERBOSE") != "") {
+				fmt.Fprintf(os.Stderr, "job %s frontier=%v paths=%d wall=%.1fs ends=%v\n", it.j.label(), it.frontier, res.Paths, res.Wall.Seconds(), res.PathsByEnd)
+			}
+			mu.Lock()
+			if res != nil {
+				rc.Results = append(rc.Results, res)
+				if it.frontier {
+					for _, pre := range res.Prefixes {
+						sub := it.j
+						sub.Split = 0
+						sub.prefix = pre
+						queue = append(queue, item{sub, false})
+						pending++
+					}
+				}
+			}
+			pending--
+			mu.Unlock()
+			cond.Broadcast()
+		}
+	}
+	for i := 0; i < rc.Workers; i++ {
+		wg.Add(1)
+		go worker()
+	}
+	wg.Wait()
+	for _, r := range rc.Results {
+		for _, s := range r.Inconclusive {
+			if rc.Prop.UnwindIsFinding && strings.HasPrefix(s, "unwinding bound reached") {
+				continue
+			}
+			rc.inconclusive("%s: %s", r.Harness, s)
+		}
+	}
+}
+
+func findingKey(f *sym.Finding) string {
+	var ts []string
+	for k, v := range f.Tags {
+		ts = append(ts, k+"="+v)
+	}
+	sort.Strings(ts)
+	return f.Harness + "|" + f.Kind + "|" + f.ID + "|" + f.Site + "|" + strings.Join(ts, ",")
+}
+
+func setOfHarness(rc *RunCtx, harness string) string {
+	for _, j := range rc.jobs {
+		if j.Fn == harness {
+			return j.Set
+		}
+	}
+	return "redis"
+}
+
+// processFindings replays every distinct finding natively and classifies it.
+func (rc *RunCtx) processFindings() {
+	known := loadKnown(rc.Verif)
+	seen := map[string]bool{}
+	var all []*sym.Finding
+	for _, r := range rc.Results {
+		for _, f := range r.Findings {
+			k := findingKey(f)
+			if seen[k] {
+				continue
+			}
+			seen[k] = true
+			all = append(all, f)
+		}
+	}
+	sort.Slice(all, func(i, j int) bool { return findingKey(all[i]) < findingKey(all[j]) })
+	replayDir := filepath.Join(rc.Verif, "replays", rc.Prop.ID)
+	os.RemoveAll(replayDir)
+	// group per (kind,id,site): replay at most a few representatives per group but classify all
+	for _, f := range all {
+		if f.Kind == "unwind" && !rc.Prop.UnwindIsFinding {
+			continue
+		}
+		set := setOfHarness(rc, f.Harness)
+		path, err := rc.St.WriteReplay(replayDir, rc.Prop.ID, f)
+		if err != nil {
+			rc.inconclusive("cannot write replay: %v", err)
+			continue
+		}
+		confirmed, detail := rc.confirm(set, f, path)
+		what := fmt.Sprintf("%s %s at %s tags=%v input=%s", f.Kind, f.ID, shortSite(f.Site), sortedTagList(f.Tags), RenderVector(f.Replay))
+		if !confirmed {
+			rc.inconclusive("ENGINE-MISMATCH: %s did not reproduce natively (%s) replay=%s", what, detail, path)
+			continue
+		}
+		rc.Validated++
+		matched := false
+		for i := range known {
+			if known[i].matches(rc.Prop.ID, f) {
+				rc.Known = append(rc.Known, fmt.Sprintf("KNOWN-FINDING: property=%s %s [%s]", rc.Prop.ID, known[i].What, what))
+				matched = true
+				break
+			}
+		}
+		if !matched {
+			rc.Violation = append(rc.Violation, fmt.Sprintf("VIOLATION property=%s replay=%s %s", rc.Prop.ID, path, what))
+		}
+		if len(rc.Samples) < 12 {
+			rc.Samples = append(rc.Samples, map[string]interface{}{"finding": what, "replay": path})
+		}
+	}
+}
+
+func sortedTagList(t map[string]string) []string {
+	var out []string
+	for k, v := range t {
+		out = append(out, k+"="+v)
+	}
+	sort.Strings(out)
+	return out
+}
+
+func shortSite(s string) string {
+	return strings.ReplaceAll(s, "github.com/cybergarage/go-redis/", "")
+}
+
+func (rc *RunCtx) confirm(set string, f *sym.Finding, path string) (bool, string) {
+	limit := 20 * time.Second
+	if f.Kind == "unwind" {
+		limit = 4 * time.Second
+	}
+	o, err := rc.St.ReplayFile(set, path, limit, f.Kind == "race")
+	if err != nil {
+		return false, err.Error()
+	}
+	switch f.Kind {
+	case "assert":
+		for _, id := range o.Failed {
+			if id == f.ID {
+				return true, ""
+			}
+		}
+	case "panic":
+		if o.Panic != "" {
+			return true, ""
+		}
+	case "unwind":
+		if o.TimedOut {
+			return true, ""
+		}
+	case "alloc":
+		if o.Panic != "" || strings.Contains(o.Output, "out of memory") || strings.Contains(o.Output, "cannot allocate") || o.TimedOut {
+			return true, ""
+		}
+	case "race":
+		if o.Race {
+			return true, ""
+		}
+	}
+	return false, o.Summary()
+}
+
+// validateTraces cross-validates sampled engine paths against the native build.
+func (rc *RunCtx) validateTraces() {
+	n := 0
+	for _, r := range rc.Results {
+		for _, tr := range r.Traces {
+			n++
+			set := setOfHarness(rc, tr.Harness)
+			f := &sym.Finding{Harness: tr.Harness, Params: tr.Params, Replay: tr.Vector, Kind: "trace", ID: "trace"}
+			path, err := rc.St.WriteReplay(filepath.Join(rc.St.Dir, "traces"), rc.Prop.ID, f)
+			if err != nil {
+				continue
+			}
+			o, err := rc.St.ReplayFile(set, path, 20*time.Second, false)
+			if err != nil {
+				rc.inconclusive("trace replay failed: %v", err)
+				return
+			}
+			var nativeCov string
+			for _, line := range strings.Split(o.Output, "\n") {
+				if strings.HasPrefix(line, "VSYM-COVERS ") {
+					nativeCov = strings.TrimSpace(strings.TrimPrefix(line, "VSYM-COVERS "))
+				}
+			}
+			want := strings.Join(tr.Covers, ",")
+			okEnd := (tr.End == "panic") == (o.Panic != "")
+			if o.Diverged || o.AssumeFalse || len(o.Failed) > 0 || !okEnd || (tr.End == "done" && nativeCov != want) {
+				keep := filepath.Join(rc.Verif, "replays", rc.Prop.ID)
+				os.MkdirAll(keep, 0o755)
+				dst := filepath.Join(keep, "mismatch-"+filepath.Base(path))
+				b, _ := os.ReadFile(path)
+				os.WriteFile(dst, b, 0o644)
+				rc.inconclusive("ENGINE-MISMATCH on sampled trace of %s: engine covers=[%s] end=%s, native covers=[%s] %s replay=%s", tr.Harness, want, tr.End, nativeCov, o.Summary(), dst)
+				continue
+			}
+			rc.Validated++
+		}
+	}
+}
+
+func (rc *RunCtx) checkCovers() {
+	total := map[string]map[string]int{}
+	for _, r := range rc.Results {
+		if total[r.Harness] == nil {
+			total[r.Harness] = map[string]int{}
+		}
+		for k, v := range r.Covers {
+			total[r.Harness][k] += v
+		}
+	}
+	for h, labels := range rc.Prop.RequiredCovers {
+		if total[h] == nil {
+			continue // harness not part of this run (filtered)
+		}
+		for _, l := range labels {
+			if total[h][l] == 0 {
+				rc.inconclusive("vacuity guard: label %q of %s was never reached", l, h)
+			}
+		}
+	}
+	rc.Extra["covers"] = total
+}
+
+func writeEvidence(rc *RunCtx, t0 time.Time, fatal []string) {
+	p := rc.Prop
+	states, transitions, queries, aq, aunsat, asat, nontriv, fast := 0, 0, 0, 0, 0, 0, 0, 0
+	var solverTime time.Duration
+	var maxQ time.Duration
+	funcs := map[string]bool{}
+	intr := map[string]bool{}
+	ends := map[string]int{}
+	cuts := map[string]int{}
+	var samples []interface{}
+	unknown := 0
+	for _, r := range rc.Results {
+		states += r.Paths
+		transitions += r.Decisions
+		queries += r.Solver.Queries
+		unknown += r.Solver.Unknown
+		solverTime += r.Solver.Time
+		if r.Solver.MaxQuery > maxQ {
+			maxQ = r.Solver.MaxQuery
+		}
+		aq += r.AssertQueries
+		aunsat += r.AssertUnsat
+		asat += r.AssertSat
+		nontriv += r.NontrivPaths
+		fast += r.FastDecided
+		for f := range r.Funcs {
+			funcs[f] = true
+		}
+		for f := range r.Intrinsics {
+			intr[f] = true
+		}
+		for k, v := range r.PathsByEnd {
+			ends[k] += v
+		}
+		for k, v := range r.Cuts {
+			cuts[k] += v
+		}
+		if len(samples) < 10 && len(r.Samples) > 0 {
+			samples = append(samples, map[string]interface{}{"harness": r.Harness, "params": r.Params, "path_witness": r.Samples[0]})
+		}
+	}
+	samples = append(samples, rc.Samples...)
+	if len(samples) == 0 {
+		samples = append(samples, "no path sample recorded")
+	}
+	cov := map[string]interface{}{
+		"states":                        max1(states),
+		"transitions":                   max1(transitions),
+		"traces_validated_against_impl": rc.Validated,
+		"samples":                       samples,
+		"evaluations":                   max1(states),
+		"distinct_nontrivial":           nontriv,
+		"rule":                          "one evaluation = one explored symbolic path (an equivalence class of concrete runs); non-trivial = the path carries a symbolic path condition or an assertion on it needed a solver query",
+		"exhaustive":                    len(rc.Inconcl) == 0 && len(fatal) == 0,
+		"jobs":                          len(rc.Results),
+		"paths_by_outcome":              ends,
+		"path_cuts_outside_claim":       cuts,
+		"queries": map[string]interface{}{
+			"solver_checks": queries, "solver_unknown": unknown, "assertion_checks": aq, "assertion_unsat": aunsat, "assertion_sat": asat,
+			"decided_by_exhaustive_byte_domain": fast,
+		},
+		"solver_time_s":     solverTime.Seconds(),
+		"max_query_s":       maxQ.Seconds(),
+		"functions_encoded": sortedKeys(funcs),
+		"intrinsics_used":   sortedKeys(intr),
+		"inconclusive":      append(append([]string{}, rc.Inconcl...), fatal...),
+		"known_findings":    rc.Known,
+	}
+	if p.Bounds != nil {
+		cov["bounds"] = p.Bounds(rc.Tier)
+	}
+	if len(p.Outside) > 0 {
+		cov["outside_claim"] = p.Outside
+	}
+	for k, v := range rc.Extra {
+		cov[k] = v
+	}
+	ev := map[string]interface{}{
+		"property_id": p.ID,
+		"tier":        rc.Tier,
+		"seed":        rc.Seed,
+		"level":       "model_checking",
+		"coverage":    cov,
+		"assumptions": p.Assumptions,
+		"wall_s":      time.Since(t0).Seconds(),
+		"violations":  len(rc.Violation),
+	}
+	b, _ := json.MarshalIndent(ev, "", " ")
+	os.MkdirAll(filepath.Join(rc.Verif, "evidence"), 0o755)
+	os.WriteFile(filepath.Join(rc.Verif, "evidence", p.ID+".json"), b, 0o644)
+}
+
+func max1(n int) int {
+	if n < 1 {
+		return 1
+	}
+	return n
+}
+
+func sortedKeys(m map[string]bool) []string {
+	var out []string
+	for k := range m {
+		out = append(out, k)
+	}
+	sort.Strings(out)
+	return out
+}
